@@ -90,6 +90,11 @@ def run(ctx):
                                                              "TrackName={\"t\"}", "Port(1) Port(2)"]), mmlgen.block(rng, 1, rng.randrange(0, 3), {}))
                             for t in range(1, ntr + 1)))
     srcs += ["TR=1 cde TR=2 Port(1) efg", "Port(1) c", "Port(300) c"]
+    # text metas around the 127-byte cut with multi-byte characters (the length byte counts BYTES)
+    for k in [20, 41, 42, 43, 44, 50, 85, 86, 127, 128, 200]:
+        for cmd in ["TrackName", "Lyric", "Copyright", "Text"]:
+            srcs.append("%s={\"%s\"} cde" % (cmd, "あ" * k))
+    srcs.append("TR(1) c TR(2) Lyric={\"%s\"} d TR(3) e" % ("あ" * 50))
     # the time base given by a VARIABLE or an expression (whatever the implementation makes of such an argument, the division
     # field is a positive 15-bit number and the container is well-formed)
     for v in [40000, 0, -1, 65632, 32768, 32767, 48, 47, 96, 100000, 2 ** 31]:
@@ -129,6 +134,21 @@ def run(ctx):
             ctx.oracle_fail("track count in header/chunks differs from the song's tracks", line[:2000], f[2] + "/" + f[4], nt, input_text=label)
         elif int(f[3]) != tb:
             ctx.oracle_fail("division differs from the time base in effect", line[:2000], f[3], tb, input_text=label)
+    # every chunk ends with an End-of-Track EVENT: walking the events of the body arrives exactly at the End-of-Track at the end of the
+    # chunk (a length byte that does not match its text makes the walk overrun although the last four bytes are 00 FF 2F 00); sources
+    # that inject raw bytes are left out
+    walk = []
+    for (line, label, nt, tb, origin, nontriv), r in zip(todo, res):
+        f = r.split("\t")
+        if origin == "compiled" and f[0] == "OK" and len(f) > 5 and not any(k in label for k in ("DirectSMF", "NoteOn(", "NoteOff(", "SysEx")):
+            for bi, b in enumerate(f[5].split("/")):
+                if len(b) < 20000:
+                    walk.append((label, bi, b))
+    dec = ctx.model(["decode_track\t%s" % b for _, _, b in walk])
+    for (label, bi, b), d in zip(walk, dec):
+        if d.startswith("DECODE-FAIL"):
+            ctx.oracle_fail("walking the events of chunk %d does not arrive at an End-of-Track event at the end of the chunk" % bi,
+                            "decode_track\t%s" % b[:2000], d[:200], "a sequence of events ending with End-of-Track", input_text=label)
 
 
 def replay(ctx, obj):
